@@ -404,6 +404,17 @@ pub fn shape(name: &str) -> Logical {
                 indexes: vec![IndexSpec { name: "main".into(), offset: 0, count: 3 }],
             },
         },
+        // a content-info table above 64 KiB (a checked block larger than any 16-bit size)
+        "huge" => Logical {
+            name: name.into(),
+            contents: (0..17_000).map(|i| item(1 + i % 2, Entropy::Low, Hint::No, 9000 + i as u64)).collect(),
+            extra_packs: vec![],
+            dir: DirSpec {
+                schema: SchemaSpec { stores: vec![StoreKind::Plain], common: vec![PropSpec::A { prefix: 2, store: 0 }, PropSpec::C], variants: vec![], sort: None },
+                entries: (0..3).map(|i| EntrySpec { variant: None, vals: vec![Val::A(format!("h{i}").into_bytes()), Val::C(1, (i * 8000) as u32)] }).collect(),
+                indexes: vec![IndexSpec { name: "main".into(), offset: 0, count: 3 }],
+            },
+        },
         other => panic!("unknown shape {other}"),
     }
 }
